@@ -206,9 +206,11 @@ def KeepsBoth (s : Sys) (i : Nat) (ch ch0 : List Nat) : Prop :=
     ∀ e ∈ d, HasPeer (fileCache (step s (.flushCommit i false ch)).file) e.1 ∧
       ∀ a ∈ e.2, HasAddr (fileCache (step s (.flushCommit i false ch)).file) e.1 a.ma
 
-/-- the full clause: in EVERY state (whatever other stores did since this store read the file) -/
+/-- the full clause: in EVERY state in which store `i` has done the load half of a flush (a commit without a load half
+is not a step of `sync_and_flush_to_disk`), whatever other stores did since this store read the file -/
 def merge_never_loses : Prop :=
-  ∀ (s : Sys) (i : Nat) (ch ch0 : List Nat), i < s.ws.length → (getW s.ws i).disabled = false → KeepsBoth s i ch ch0
+  ∀ (s : Sys) (i : Nat) (ch ch0 : List Nat), i < s.ws.length → (getW s.ws i).disabled = false →
+    (getW s.ws i).loaded ≠ none → KeepsBoth s i ch ch0
 
 /-- the missing hypothesis: what the flush read is what the file holds now — no other writer committed between the two
 halves of this flush (`sync_and_flush_to_disk` takes no lock: lib.rs advertises "File locking", the code has none) -/
@@ -508,15 +510,29 @@ theorem startup_fails_on_unusable_cache_dir (cfg : Cfg) (ch ord : List Nat) (now
     simp only [startup, h1, h2, h3, h4, h5, hde, startupIgnoresLoadError, Bool.true_or, if_true]
     constructor <;> (cases load cfg ch now file <;> simp [finish] <;> split <;> simp)
 
+-- the hypothesis is inhabited (no `--first`, no `ANT_PEERS`, not `--local`, no `--peer`, cache not ignored) …
+example : ReachesCache 5 ⟨false, false, false, [], none⟩ [] := by simp [ReachesCache, enough]
+-- … and one instance of each failing directory kind, over a cache file that is perfectly fine
+example : startup ⟨2, 2, 100⟩ [] [] 5 ⟨false, false, false, [], none⟩ [] .isFile (.data []) = .error .badDir := rfl
+example : startup ⟨2, 2, 100⟩ [] [] 5 ⟨false, false, false, [], none⟩ [] .uncreatable .absent = .error .cache := rfl
+example : startup ⟨2, 2, 100⟩ [] [] 5 ⟨false, false, false, [], none⟩ [] .missing .absent = .error .noPeers := rfl
+
 /-- **What antnode's own start-up does with the cache** (`new_from_peers_args(..)?` then `sync_and_flush_to_disk(true)?`,
-antnode/main.rs): it ends the process exactly when the directory argument is unusable, or the cache file cannot be
-written while the node is `--first` or cache writing is enabled (not `--local`). The CONTENT of the cache file plays no
-part (it is not an argument of `nodeStart`; a flush over any content writes a cache: `corrupt_ignored`,
-`flush_with_cleanup_bounded_clean`). -/
-theorem node_start_fails_iff (dir : DirKind) (first loc writeFails : Bool) :
-    nodeStart dir first loc writeFails ≠ .ok () ↔
-      (dir = .isFile ∨ dir = .uncreatable ∨ (writeFails = true ∧ (first = true ∨ loc = false))) := by
-  cases dir <;> cases first <;> cases loc <;> cases writeFails <;> simp [nodeStart, dirErr]
+antnode/main.rs): it ends the process exactly when the default cache directory cannot be obtained or created
+(`default_config()?`, evaluated even with an override), the directory argument is unusable, the cache file's directory
+vanished before `Self::new` could re-create it, or the cache file cannot be written while the node is `--first` or cache
+writing is enabled (not `--local`). The CONTENT of the cache file plays no part (it is not an argument of `nodeStart`;
+a flush over any content writes a cache: `corrupt_ignored`, `flush_with_cleanup_bounded_clean`). -/
+theorem node_start_fails_iff (defaultDirFails : Bool) (dir : DirKind) (parentFails first loc writeFails : Bool) :
+    nodeStart defaultDirFails dir parentFails first loc writeFails ≠ .ok () ↔
+      (defaultDirFails = true ∨ dir = .isFile ∨ dir = .uncreatable ∨ parentFails = true ∨
+        (writeFails = true ∧ (first = true ∨ loc = false))) := by
+  cases defaultDirFails <;> cases dir <;> cases parentFails <;> cases first <;> cases loc <;> cases writeFails <;>
+    simp [nodeStart, dirErr]
+
+-- an unusable DEFAULT directory ends start-up even though `--bootstrap-cache-dir` names a good one
+example : nodeStart true .isDir false false false false = .error .cache := rfl
+example : nodeStart false .isDir false false false false = .ok () := rfl
 
 /-! ### the periodic save of `ant-networking/src/driver.rs` -/
 
@@ -547,8 +563,11 @@ theorem getW_modAt_ne (f : Writer → Writer) : ∀ (i j : Nat) (ws : List Write
 
 /-- **The periodic save keeps every promise of the property about the file and the live store**: the live store
 continues empty (so within its limits), and the file the spawned task writes is a cache within the limits, free of
-expired and unreliable addresses — at whatever later time the task's two halves run and whatever other stores (or
-earlier spawned tasks of the same process) did in between: the statement is about ANY state in which slot `j` commits.
+expired and unreliable addresses.  This statement runs the swap and the two halves of the spawned flush BACK TO BACK
+from an arbitrary state; for a spawned flush whose halves are interleaved with steps of other stores (or of earlier
+spawned tasks of the same process) the file clause is `flush_with_cleanup_bounded_clean` (any state in which slot `j`
+commits) and `bounds_invariant` / `concurrent_flush_loadable` (any operation list, `swap` included); what such
+interleaving does lose is peers (`interleaved_flush_loses_peer` and the one-process example below it).
 Depends on the flush being called with clean-up (`periodicFlushCleans`, read off driver.rs). -/
 theorem periodic_flush_bounded_clean (s : Sys) (i j : Nat) (ch1 ch : List Nat) (hi : i < s.ws.length)
     (hj : j < s.ws.length) (hij : i ≠ j) (hd : (getW s.ws i).disabled = false) :
@@ -656,7 +675,7 @@ read BEFORE store 0's commit: the file loses peer 1, which store 0 has already c
 no file and in no memory. The full clause `merge_never_loses` is false of the code. -/
 theorem interleaved_flush_loses_peer : ¬ merge_never_loses := by
   intro h
-  have h3 := ((h raceState 1 [] [] (by decide) (by decide)).2.2 [(1, [⟨q 1 1 1, 1, 0, 1000001⟩])] (by decide)
+  have h3 := ((h raceState 1 [] [] (by decide) (by decide) (by decide)).2.2 [(1, [⟨q 1 1 1, 1, 0, 1000001⟩])] (by decide)
     (1, [⟨q 1 1 1, 1, 0, 1000001⟩]) (by simp)).1
   simp only [HasPeer] at h3
   revert h3
